@@ -26,6 +26,9 @@ def _common_coverage(c, extra=None):
         "programs_non_terminating_within_bound": c.get("nonterminating", []),
         "runs_with_premature_heartbeat_timeout_not_judged": sum(1 for r in runs if r.get("premature")),
         "campaign_wall_s": round(c.get("wall", 0), 1),
+        "np_model": {k: c.get("exhaustive_np", {}).get(k) for k in ("ok", "programs", "distinct", "generated", "timeout")},
+        "spec_behaviours_replayed_through_the_gate": (c.get("replay") or {}).get("by_verdict"),
+        "ownership_traces_validated": (c.get("ownership") or {}).get("traces"),
     }
     if extra:
         cov.update(extra)
@@ -48,6 +51,13 @@ def _model_issues(c, v, invs):
                                     "specification and code disagree; resolve before trusting this check" % (name, invs, pp["violated"]))
     if not exh["ok"] and not exh["per_prog"] and not exh["timeout"]:
         v.harness_errors.append("TLC failed: " + str(exh.get("error_text"))[:800])
+    enp = c.get("exhaustive_np") or {"ok": True, "per_prog": {}, "timeout": False}
+    np_invs = {"NoProtocolError": "NoProtocolError", "ExpectedOutcome": "NPExpectedOutcome", "QuiescentClean": None}
+    for name, pp in enp["per_prog"].items():
+        if pp.get("violated") and pp.get("violated") in [np_invs.get(i) for i in invs if np_invs.get(i)]:
+            v.harness_errors.append("model counterexample for %s in the non-polarized specification GritsNP (invariant %s) was not reproduced on the real code" % (name, pp["violated"]))
+    if not enp["ok"] and not enp["per_prog"] and not enp.get("timeout"):
+        v.harness_errors.append("TLC failed on GritsNP: " + str(enp.get("error_text"))[:800])
     val = c["validation"]
     for r in val["rejected"]:
         if r.get("harness"):
@@ -72,6 +82,19 @@ def c01():
                         {"program": r["prog"], "mode": r["mode"], "np_with_contraction": r["mode"] == "np" and cfree.get(r["prog"]) is False})
         elif r["hang"] and not r.get("nonterminating"):
             v.notes.append("run %s did not finish within the time limit (not judged)" % r["id"])
+    # behaviours of the specifications that end in a run-time error, stepped through the real interpreter by the gate
+    for r in (c.get("replay") or {}).get("records", []):
+        if r["verdict"] == "error-reproduced":
+            v.violation("accepted closed program %s dies at run time in mode %s when it follows the schedule TLC found in the specification (error of the model: %s): %s"
+                        % (r["prog"], r["mode"], r["spec_err"], (r["crash"] or "")[-300:]),
+                        {"program": text[r["prog"]], "run": r["id"], "plan": r["plan"], "crash": r["crash"], "spec_error": r["spec_err"]},
+                        {"program": r["prog"], "mode": r["mode"], "np_with_contraction": r["mode"] == "np" and cfree.get(r["prog"]) is False})
+        elif r["verdict"] == "error-not-reproduced":
+            v.notes.append("model-level error %s of %s (%s) was not reproduced by the gate replay (%s)" % (r["spec_err"], r["prog"], r["mode"], r["why"]))
+        elif r["verdict"] == "outcome" and r["crash"]:
+            v.violation("accepted closed program %s dies at run time in mode %s under a schedule of the specification that ends normally there: %s" % (r["prog"], r["mode"], r["crash"][-300:]),
+                        {"program": text[r["prog"]], "run": r["id"], "plan": r["plan"], "crash": r["crash"]},
+                        {"program": r["prog"], "mode": r["mode"], "np_with_contraction": r["mode"] == "np" and cfree.get(r["prog"]) is False})
     _model_issues(c, v, ("NoProtocolError", "OneMessagePerChannel", "OneListener"))
     cov = _common_coverage(c, {"crashes_observed": sum(1 for r in c["runs"] if r["crash"]),
                                "modes_run_on_real_code": ["async", "sync", "np"]})
@@ -133,8 +156,24 @@ def c03():
             v.violation("%s prints different multisets on different runs: %s" % (name, json.dumps({" ".join(k): ids[:2] for k, ids in bags.items()})[:500]),
                         {"program": info[name]["text"], "bags": {" ".join(k): ids for k, ids in bags.items()}}, {"program": name})
         # completion status: blocked sets of polarized async runs must agree (empty, see C02) - covered by C02
+    # schedules chosen by TLC in the specifications and forced on the real interpreter by the gate: the outcome must be the one the other runs gave
+    replayed = 0
+    for r in (c.get("replay") or {}).get("records", []):
+        if r["verdict"] not in ("agree", "outcome") or r["crash"] or r["prints"] is None:
+            continue
+        if r["mode"] == "np" and not info[r["prog"]]["cfree"]:
+            continue
+        replayed += 1
+        ref = c["expect"].get(r["prog"])
+        if ref and ref.get("unique") and sorted(r["prints"]) != sorted(ref["bag"]):
+            v.violation("%s (%s) printed %s when made to follow a schedule of the specification; every other run / the reference gives %s"
+                        % (r["prog"], r["mode"], " ".join(sorted(r["prints"])), " ".join(sorted(ref["bag"]))),
+                        {"program": info[r["prog"]]["text"], "run": r["id"], "plan": r["plan"], "printed": r["prints"], "reference_bag": ref["bag"]}, {"program": r["prog"]})
+        elif r["verdict"] == "outcome":
+            v.harness_errors.append("replay of %s followed the plan but printed %s where the specification predicts %s, and the reference agrees with the code: GritsRT/GritsNP disagree with Sax"
+                                    % (r["id"], r["prints"], r["spec_out"]))
     _model_issues(c, v, ("ExpectedOutcome",))
-    cov = _common_coverage(c, {"runs_compared": compared, "programs_compared": len(by),
+    cov = _common_coverage(c, {"runs_compared": compared, "programs_compared": len(by), "gate_replays_compared": replayed,
                                "np_compared_for_contraction_free_programs": sum(1 for n in by if info[n]["cfree"])})
     vlib.write_evidence("C03", "model_checking", cov, time.time() - t0, len(v.violations),
                         ASSUME + ["every interleaving of the exhaustively explored programs ends with the multiset the real asynchronous run printed (invariant ExpectedOutcome)"])
